@@ -5,12 +5,15 @@
   * Streamable HTTP (`server.go SendNotification / BroadcastNotification / SendFilteredNotification / ListRoots`,
     `streamable_server.go sendNotificationToGetSSE / SendRequest / handlePostResponse`, `responseManager`):
     a frame for session `s` is written on the GET stream registered for `s`; no stream ⇒ the send fails.
-    Pending server→client requests live in one server-wide map keyed by `fmt.Sprintf("%v", id)` — the key does not
-    include the session, and `handlePostResponse` looks the answer up by that key only.
+    Pending server→client requests live in one server-wide map keyed by `requestIDKey(id)` (`fmt.Sprintf("%v", id)` before
+    the D01 repair); the entry remembers the session the request was sent to and `DeliverResponse` accepts an answer only
+    from that session (before the D13 repair: looked up by the id alone).
   * legacy SSE (`sse_server.go SendNotification / ListRoots / SendRequest / handleResponseMessage`): a session *is* its
     SSE connection; notifications go through `notificationChannel`, requests through `eventQueue` (two queues, so order is
     kept per kind only); `sendNotificationToSession` refuses sessions that are not `Initialized()`; the pending map is
-    keyed by `uint64(id)` and `handleResponseMessage` ignores its `session` argument.
+    keyed by `uint64(id)`; the entry remembers its session and `handleResponseMessage` compares it with the posting session
+    (before the D13 repair the `session` argument was ignored); `notifications/initialized` marks the session initialized
+    (before the D14 repair nothing did).
   * stdio (`stdio_server.go SendRequest / HandleResponse`): one session; notifications through the session's
     notification channel, requests through its message channel; pending map keyed by `uint64(id)`.
 
@@ -28,7 +31,8 @@ inductive Server where
   deriving DecidableEq, Repr
 
 structure Facts where
-  answerChecksSession : Bool   -- a lookup site of the pending table takes the posting session into account
+  streamableIdKey : Bool       -- the Streamable pending table renders ids with requestIDKey on both sides (else `%v`)
+  answerChecksSession : Bool   -- every lookup site of the pending tables takes the posting session into account
   sseInitialized : Bool        -- something marks a legacy SSE session initialized (or the guard is gone)
   deferredDelete : Bool        -- the insert into the pending table has its matching deferred delete
   deriving DecidableEq, Repr
@@ -99,8 +103,8 @@ inductive Ret where
   | failed                                           -- ListRoots returned an error (timeout / cancelled)
   deriving DecidableEq, Repr
 
-def keyKind : Server → KeyKind
-  | .streamable _ => .sprintfV
+def keyKind (f : Facts) : Server → KeyKind
+  | .streamable _ => if f.streamableIdKey then .idKey else .sprintfV
   | _ => .uint64
 
 def hasStream (s : St) (a : Nat) : Bool := s.streams.contains a
@@ -194,7 +198,7 @@ def step (srv : Server) (f : Facts) (s : St) : Op → St × Ret
       if !sessionExists srv s a then (s, .err .notFound) else
       -- the counter is consumed before the stream is looked up
       if !streamOk srv s a then ({ s with nextId := s.nextId + 1 }, .err .noStream) else
-      match keyOfReq (keyKind srv) (.int (Int.ofNat (s.nextId + 1))) with
+      match keyOfReq (keyKind f srv) (.int (Int.ofNat (s.nextId + 1))) with
       | none => ({ s with nextId := s.nextId + 1 }, .err .unsupported)
       | some key =>
         ({ s with nextId := s.nextId + 1, pending := s.pending ++ [⟨key, a, m, none⟩], waiting := s.waiting ++ [m],
@@ -204,7 +208,7 @@ def step (srv : Server) (f : Facts) (s : St) : Op → St × Ret
     | .streamable true => (s, .posted 202)      -- a throw-away session per POST: nothing is ever pending
     | _ =>
       if !sessionExists srv s p then (s, .posted 404) else
-      match keyOfWire (keyKind srv) idw with
+      match keyOfWire (keyKind f srv) idw with
       | none => (s, .posted 202)
       | some key => ({ s with pending := fillP f.answerChecksSession key p payload s.pending }, .posted 202)
   | .complete m =>
